@@ -26,6 +26,8 @@ separated by `|`; protocol documented in harness/bind-native/README.md.  The ima
                                        (mode = FlagsLift rendering read off the generated text)
   ledger|<p>|<fn>|<VALS>|<VAL or _>    model of the code (RustLedger): event counts of one export call of the stub
         → ok hasmap=<0|1> galloc=<n> hostfree=<n> gfree=<n> postfree=<n> leak=<n>
+  ledger-import|<p>|<fn>|<VALS>|<VAL or _>   same for one import call, counted after the caller built the arguments
+        → ok hasmap=<0|1> galloc=<n> hostfree=<n> gfree=<n>
   canon|<T>                            → rust=<0|1> bits=<0|1>
   resource|<script>                    C07: see Witverif/Abi/Resource.lean (`runScript`)
 -/
@@ -153,6 +155,18 @@ def handle (line : String) : String :=
           "ok hasmap=" ++ b01 (RustLedger.hasMapAny f.params || RustLedger.hasMapOpt f.result)
             ++ " galloc=" ++ toString ga ++ " hostfree=" ++ toString hf ++ " gfree=" ++ toString gf
             ++ " postfree=" ++ toString pf ++ " leak=" ++ toString lk
+      | _, _, _ => "bad-request"
+  | ["ledger-import", p, f, vs, r] =>
+      match p.toNat?, parseFunc f, parseVal vs with
+      | some p, some f, some (.record vs) =>
+          let rv : Option Val := if r == "_" then none else parseVal r
+          let args := RustLedger.argsTree (paramsIndirect p f.params) f.params vs
+          let res := match f.result, rv with
+            | some t, some v => RustLedger.shape t v
+            | _, _ => RustLedger.Tree.node .plain false false []
+          let (ga, hf, gf) := RustLedger.importCounts args res
+          "ok hasmap=" ++ b01 (RustLedger.hasMapAny f.params || RustLedger.hasMapOpt f.result)
+            ++ " galloc=" ++ toString ga ++ " hostfree=" ++ toString hf ++ " gfree=" ++ toString gf
       | _, _, _ => "bad-request"
   | ["canon", t] =>
       match parseTy t with
